@@ -428,7 +428,27 @@ pub fn inject(ch: &mut Choices, doc: &mut Vec<MTsDef>) -> Option<TsFault> {
                     let f = ifields.iter().find(|f| !f.args.is_empty())?.clone();
                     let tf = t.fields.iter_mut().find(|x| x.name == f.name)?;
                     let a = tf.args.iter_mut().find(|x| x.name == f.args[0].name)?;
-                    a.ty = if a.ty.is_non_null() { a.ty.nullable().clone() } else { MType::non_null(a.ty.clone()) };
+                    // argument types are invariant: flip the non-null marker at the outside or at any list level,
+                    // or change the list structure
+                    fn toggle_at(t: &MType, lvl: usize) -> MType {
+                        let (nn, core) = match t {
+                            MType::NonNull(i) => (true, (**i).clone()),
+                            o => (false, o.clone()),
+                        };
+                        if lvl == 0 {
+                            return if nn { core } else { MType::non_null(core) };
+                        }
+                        let inner = match &core {
+                            MType::List(i) => MType::list(toggle_at(i, lvl - 1)),
+                            _ => return if nn { core } else { MType::non_null(core) },
+                        };
+                        if nn { MType::non_null(inner) } else { inner }
+                    }
+                    let depth = a.ty.list_depth();
+                    a.ty = match ch.below(4) {
+                        0 => MType::list(a.ty.clone()),
+                        _ => toggle_at(&a.ty, if depth == 0 { 0 } else { ch.below(depth + 1) }),
+                    };
                     a.default = None;
                     Some(TsFault { label: "interface-argument-type-differs", cell: format!("{kind:?}") })
                 }
